@@ -44,3 +44,130 @@ Print Assumptions C16_default_accepts_sites.
 Theorem C16_examples : strict_examples_ok = true.
 Proof. exact strict_examples. Qed.
 Print Assumptions C16_examples.
+
+(* ---- end-to-end, default mode (syntax: TokSyntaxExt.v, proofs: TokValidExt*.v, TokExt.v) ---- *)
+From JC Require Import TokSyntax TokSyntaxExt TokExt.
+
+(* every document written with the documented extension spellings — comments between any two
+   tokens, strings and names in single quotes, a trailing comma, literals in any letter case,
+   raw control bytes in strings, superfluous leading zeros, an exponent without digits —
+   followed by arbitrary trailing garbage, is accepted in default mode with the value xvalue,
+   and the reported end position is the end of the document *)
+Theorem C16_default_accepts_ext : forall sb D x lead trail junk t,
+  wf_xstx x -> wf_xws lead = true -> wf_xws trail = true -> covered_x x = true ->
+  Z.of_nat (xnest x) < D -> xints_in_range x = true -> xnames_nul_free x = true -> junk_ok junk = true ->
+  tok_new D false false false = Some t ->
+  exists t', parse_ex_cstr sb t (render_xdoc lead x trail ++ junk) = PR t' (Some (xvalue sb x)) /\
+             err t' = TE_success /\ char_offset t' = zlen (render_xdoc lead x trail).
+Proof. exact default_accepts_ext. Qed.
+Print Assumptions C16_default_accepts_ext.
+
+Theorem C16_covered_x_all : forall x, covered_x x = true.
+Proof. exact covered_x_all. Qed.
+Print Assumptions C16_covered_x_all.
+
+(* ... and that value is the value of the erased RFC 8259 document whenever the number tokens
+   are RFC-shaped (comments, quotes, trailing commas, letter case, control bytes are neutral) *)
+Theorem C16_default_value_neutral : forall sb x,
+  wf_xstx x -> neutral x = true -> xvalue sb x = value sb (erase x).
+Proof. exact default_value_neutral. Qed.
+Print Assumptions C16_default_value_neutral.
+
+Theorem C16_ext_example : ext_example_ok = true.
+Proof. exact ext_example. Qed.
+Print Assumptions C16_ext_example.
+
+(* ---- end-to-end, strict mode (positions: TokStrictPos.v, proofs: TokStrictExt.v) ----
+   A position in a valid document is given by the valid text to its left (render_pos /
+   render_vpos; pgood / vgood: well-formed, integers within 64 bits, names free of U+0000;
+   pfit / vfit: the nesting fits the depth).  One extension form put at the position makes
+   the strict parser return an error, WHATEVER follows (Q is arbitrary). *)
+From JC Require Import TokStrictPos TokStrictExt TokValidExtNum.
+
+Theorem C16_strict_rejects_comment : forall sb D q Q t,
+  pgood q = true -> pfit D q = true -> tok_new D true false false = Some t ->
+  rejected sb t (render_pos q ++ 47 :: Q).
+Proof. exact strict_rejects_comment. Qed.
+Print Assumptions C16_strict_rejects_comment.
+
+Theorem C16_strict_rejects_single_quote_value_at : forall sb D p Q t,
+  vgood p = true -> vfit D p = true -> Z.of_nat (vdepth p) < D -> tok_new D true false false = Some t ->
+  rejected sb t (render_vpos p ++ 39 :: Q).
+Proof. exact strict_rejects_single_quote_value. Qed.
+Print Assumptions C16_strict_rejects_single_quote_value_at.
+
+Theorem C16_strict_rejects_single_quote_name : forall sb D p pre a Q t,
+  pgood (PB p pre a) = true -> pfit D (PB p pre a) = true -> tok_new D true false false = Some t ->
+  rejected sb t (render_pos (PB p pre a) ++ 39 :: Q).
+Proof. exact strict_rejects_single_quote_name. Qed.
+Print Assumptions C16_strict_rejects_single_quote_name.
+
+Theorem C16_strict_rejects_trailing_comma_array : forall sb D p pre a Q t,
+  pre <> [] -> vgood (VArr p pre a) = true -> vfit D (VArr p pre a) = true -> tok_new D true false false = Some t ->
+  rejected sb t (render_vpos (VArr p pre a) ++ 93 :: Q).
+Proof. exact strict_rejects_trailing_comma_array. Qed.
+Print Assumptions C16_strict_rejects_trailing_comma_array.
+
+Theorem C16_strict_rejects_trailing_comma_object : forall sb D p pre a Q t,
+  pre <> [] -> pgood (PB p pre a) = true -> pfit D (PB p pre a) = true -> tok_new D true false false = Some t ->
+  rejected sb t (render_pos (PB p pre a) ++ 125 :: Q).
+Proof. exact strict_rejects_trailing_comma_object. Qed.
+Print Assumptions C16_strict_rejects_trailing_comma_object.
+
+Theorem C16_strict_rejects_trailing_bytes : forall sb D lead v w j Q t,
+  pgood (PF (VTop lead) v w) = true -> pfit D (PF (VTop lead) v w) = true ->
+  is_ws j = false -> j <> 0 -> (w <> [] \/ xstop j = true) ->
+  tok_new D true false false = Some t ->
+  rejected sb t (render_pos (PF (VTop lead) v w) ++ j :: Q).
+Proof. exact strict_rejects_trailing_bytes. Qed.
+Print Assumptions C16_strict_rejects_trailing_bytes.
+
+Theorem C16_strict_rejects_literal_case : forall sb D p l ups Q t,
+  vgood p = true -> vfit D p = true -> Z.of_nat (vdepth p) < D ->
+  Nat.eqb (length ups) (length (render_lit l)) = true -> existsb (fun u => u) ups = true ->
+  tok_new D true false false = Some t ->
+  rejected sb t (render_vpos p ++ render_xlit l ups ++ Q).
+Proof. exact strict_rejects_literal_case. Qed.
+Print Assumptions C16_strict_rejects_literal_case.
+
+Theorem C16_strict_rejects_number : forall sb D p n Q t,
+  vgood p = true -> vfit D p = true -> Z.of_nat (vdepth p) < D ->
+  wf_xnum n = true -> ext_num n = true -> stops Q = true ->
+  tok_new D true false false = Some t ->
+  rejected sb t (render_vpos p ++ render_num n ++ Q).
+Proof. exact strict_rejects_number. Qed.
+Print Assumptions C16_strict_rejects_number.
+
+Theorem C16_strict_rejects_control_char_value : forall sb D p cs b Q t,
+  vgood p = true -> vfit D p = true -> Z.of_nat (vdepth p) < D ->
+  wf_chars cs = true -> 1 <= b <= 31 ->
+  tok_new D true false false = Some t ->
+  rejected sb t (render_vpos p ++ (34 :: render_chars cs ++ [b]) ++ Q).
+Proof. exact strict_rejects_control_char_value. Qed.
+Print Assumptions C16_strict_rejects_control_char_value.
+
+Theorem C16_strict_rejects_control_char_name : forall sb D p pre a cs b Q t,
+  pgood (PB p pre a) = true -> pfit D (PB p pre a) = true ->
+  wf_chars cs = true -> 1 <= b <= 31 ->
+  tok_new D true false false = Some t ->
+  rejected sb t (render_pos (PB p pre a) ++ (34 :: render_chars cs ++ [b]) ++ Q).
+Proof. exact strict_rejects_control_char_name. Qed.
+Print Assumptions C16_strict_rejects_control_char_name.
+
+Theorem C16_strict_pos_example : strict_pos_example_ok = true.
+Proof. exact strict_pos_example. Qed.
+Print Assumptions C16_strict_pos_example.
+
+(* the erased tree is a well-formed RFC 8259 tree; the two default-mode theorems combined *)
+Theorem C16_erase_wf : forall x, wf_xstx x -> wf_stx (erase x).
+Proof. exact erase_wf. Qed.
+Print Assumptions C16_erase_wf.
+
+Theorem C16_default_accepts_neutral : forall sb D x lead trail junk t,
+  wf_xstx x -> wf_xws lead = true -> wf_xws trail = true -> neutral x = true ->
+  Z.of_nat (xnest x) < D -> xints_in_range x = true -> xnames_nul_free x = true -> junk_ok junk = true ->
+  tok_new D false false false = Some t ->
+  wf_stx (erase x) /\
+  exists t', parse_ex_cstr sb t (render_xdoc lead x trail ++ junk) = PR t' (Some (value sb (erase x))) /\ err t' = TE_success.
+Proof. exact default_accepts_neutral. Qed.
+Print Assumptions C16_default_accepts_neutral.
